@@ -128,6 +128,8 @@ claims = {
             "The invariant R-REP is an assumption about reachable replica states (argued in DESIGN.md D.3); time does not pass inside one pass.", "DESIGN.md 5 (C07), Appendix D.3"),
     "C06": ("One Compactor.Compact step from every level layout within the bound that satisfies R-LVL, through the real ltx.Compactor, ltx.Encoder and ltx.Decoder (only lz4 and crc64 modelled): the output range continues the level, only the new source files are opened and in TXID order, nothing is written when nothing is new, the cache equals the written file, the level stays contiguous; for a symbolic witness page the output holds it iff some input holds it within the final commit size, with the last input's image, equal to applying the inputs in order; commit and timestamp are the newest input's.",
             "Codec model: lz4 identity, crc64 constant. Chains starting at TXID 1 are assumed growth-complete.", "DESIGN.md 5 (C06), Appendix D.3"),
+    "C19": ("The real sortSnapshotsV3ByCreatedAt, findBestSnapshotV3, filterWALSegmentsV3, applyWALSegmentsV3, appendWALSegmentV3, RestoreV3 (over the file-system model) and shouldUseV3Restore/TimeBoundsV3/findBestLTXSnapshotForTimestamp are executed symbolically over legacy layouts with every segmentation of IDX WAL indexes into 1-2 segments of 1-2 bytes, any one segment removed, symbolic snapshot/segment/LTX ages and requested time. Asserted: the snapshot used is the newest eligible; the filter keeps exactly the eligible segments; a listing that is not one contiguous run from (snapshot index,0) is an error with no output and no temp file; a contiguous run reassembles each WAL byte-exactly; the format with the more recent eligible backup is chosen.",
+            "SQLite's application of the reassembled WAL is cut out (checkpointV3 stand-in, also in the native twin). Contiguity is what a listing can show.", "DESIGN.md 5 (C19), 7 (H7)"),
 }
 na_reasons = {
     "C12": "quantifies over goroutine interleavings and the Go memory model; a sequential SSA symbolic interpreter cannot soundly decide races or deadlocks and no concurrency-aware engine for Go exists in this image (DESIGN.md 6)",
@@ -166,7 +168,29 @@ manifest = {
 }
 json.dump(manifest, open(os.path.join(os.path.dirname(os.path.dirname(os.path.abspath(__file__))), "MANIFEST.gen.json"), "w"), indent=1)
 
-spec = {"repo": "/repo", "groups": groups, "properties": props}
+props["C19"] = {
+    "level": "model_checking", "validate": 6,
+    "runs": [
+        run("root", "VxC19Apply", {"IDX": 2}, {"IDX": 3}),
+        run("root", "VxC19Select", {"SNAPS": 3}, {"SNAPS": 3}),
+        run("root", "VxC19Restore", {"IDX": 2}, {"IDX": 2}),
+        run("root", "VxC19Arbitrate", {}, {}),
+    ],
+    "assumptions": [
+        "a backend lists WAL segments sorted by (index, offset) and snapshots by index (interface contract of ReplicaClientV3)",
+        "contiguity is judged on what a listing can show: the first segment must be (snapshot index, 0) and each next one must continue the same index at the running offset or start the next index at offset 0; a removed last segment of an index cannot be seen by any reader of this format and is outside the claim",
+        "environment cut: checkpointV3 (SQLite applying <db>-wal) is replaced by a recorder of the reassembled WAL bytes",
+        "segment sizes 1-2 bytes, 1-2 segments per index; instants are whole seconds +- 0.5 s",
+    ],
+    "stubs": ["ReplicaClientV3 mock serving segments from memory", "checkpointV3 recorder (source rewrite, same stand-in natively)", "file-system model (symfs)", "log/slog no-op"],
+    "outside": ["more than IDX WAL indexes / 2 segments per index", "decompression and SQLite's application of the WAL", "multiple generations in RestoreV3 (snapshot choice across generations is covered by VxC19Select's sort/choose)"],
+}
+
+rewrites = [
+    {"file": "replica.go", "from": "func checkpointV3(", "to": "func checkpointV3Real("},
+]
+
+spec = {"repo": "/repo", "groups": groups, "properties": props, "rewrites": rewrites}
 out = os.path.join(os.path.dirname(os.path.abspath(__file__)), "spec.gen.json")
 json.dump(spec, open(out, "w"), indent=1)
 print("wrote", out, "with", len(props), "properties")
